@@ -31,7 +31,7 @@ ASSUMPTIONS = [
     "values are drawn from string/varint/uint32/boolean/stringlist so that value identity (C01/C14) is not what is being decided",
     "GC-driven finalisation of writers is kept out of runs (gc disabled during a run)",
 ]
-EXPECTED_PROBES = ["nested-descriptor-emitted", "same-name-redefinition", "identifier-coincidence", "reader-between-writes", "json-nested", "grouped-members", "equal-descriptor-twice"]
+EXPECTED_PROBES = ["nested-descriptor-emitted", "same-name-redefinition", "identifier-coincidence", "reader-between-writes", "json-nested", "grouped-members", "equal-descriptor-twice", "same-object-to-two-writers", "refused-write-then-continue"]
 
 VALUE_TYPES = ["string", "varint", "boolean", "uint32"]
 KINDS = ["bin-raw", "bin-path", "bin-gz", "json"]
@@ -192,6 +192,12 @@ def generate(rng, tier, index):
                     used.add(ident)
                     members.append({"$rec": [mk, gen_vals(rng, pool, mk)]})
                 ops.append({"op": "write", "actor": a, "group": rng.choice(["grp/x", "g/m", "t/a"]), "members": members})
+            if len(open_actors) > 1 and rng.random() < 0.15:
+                # the same record *object* is handed to a second writer (a tee)
+                ops[-1]["tee"] = [x for x in open_actors if x != a][: rng.choice([1, 2])]
+            if rng.random() < 0.08:
+                # a write refused inside pack(): a holder whose nested value cannot be packed; the caller goes on
+                ops.append({"op": "write_bad", "actor": a, "desc": rng.choice(holders)})
         elif r < 0.82:
             ops.append({"op": "flush", "actor": a})
         elif r < 0.92:
@@ -474,20 +480,42 @@ def execute(plan, keep_log=False):
                 if exp["kind"] == "GROUPED":
                     fd = rec._desc
                     exp["flat"] = (fd.name, tuple((t, n) for t, n in fd.get_field_tuples()))
-                try:
-                    a.writer.write(rec)
-                    a.expected.append(exp)
-                    if a.kind == "json" and exp["kind"] == "GROUPED":
-                        a.written_obs.append(flat_obs(rec))
-                    else:
-                        a.written_obs.append(obs_record(rec))
-                    w.log(a.id, "write", op.get("desc") or ("group:" + op["group"]), "-> ok")
-                except Exception as e:  # noqa: BLE001
-                    w.log(a.id, "write", op.get("desc") or ("group:" + op["group"]), "->", type(e).__name__)
-                    add([_viol("C03.write-raises", "write of a valid record raised %s: %s" % (type(e).__name__, e))], "step %d %s" % (oi, a.id))
+                targets = [a] + [actors[t] for t in op.get("tee", []) if t in actors and not actors[t].closed]
+                if len(targets) > 1:
+                    w.probe("same-object-to-two-writers")
+                for a in targets:
+                    try:
+                        a.writer.write(rec)
+                        a.expected.append(exp)
+                        if a.kind == "json" and exp["kind"] == "GROUPED":
+                            a.written_obs.append(flat_obs(rec))
+                        else:
+                            a.written_obs.append(obs_record(rec))
+                        w.log(a.id, "write", op.get("desc") or ("group:" + op["group"]), "-> ok")
+                    except Exception as e:  # noqa: BLE001
+                        w.log(a.id, "write", op.get("desc") or ("group:" + op["group"]), "->", type(e).__name__)
+                        add([_viol("C03.write-raises", "write of a valid record raised %s: %s" % (type(e).__name__, e))], "step %d %s" % (oi, a.id))
                 if exp["nested"]:
                     w.probe("nested-descriptor-emitted")
                 last_writer = a.id
+            elif kind == "write_bad":
+                a = actors[op["actor"]]
+                if a.closed:
+                    continue
+                # the nested value is not packable: pack() must raise and the stream must stay usable
+                d = pool.desc[op["desc"]]
+                name, fields = pj[op["desc"]]
+                vals = []
+                for typ, _ in fields:
+                    vals.append({1, 2} if typ == "record" else ([{3}] if typ == "record[]" else ("bad" if typ == "string" else 1)))
+                try:
+                    rec = d(*vals)
+                    a.writer.write(rec)
+                    w.log(a.id, "write_bad", op["desc"], "-> ok (unexpected)")
+                    add([_viol("C03.write-raises", "a record holding an unpackable nested value was written without error")], "step %d %s" % (oi, a.id))
+                except Exception as e:  # noqa: BLE001
+                    w.probe("refused-write-then-continue")
+                    w.log(a.id, "write_bad", op["desc"], "->", type(e).__name__)
             elif kind == "flush":
                 a = actors[op["actor"]]
                 if not a.closed:
@@ -595,6 +623,8 @@ def _json_norm(o):
 
 
 def _op_str(o):
+    if o["op"] == "write_bad":
+        return "%s.write(%s with unpackable child -> refused)" % (o["actor"], o["desc"])
     if o["op"] == "write":
         return "%s.write(%s)" % (o["actor"], o.get("desc") or "group[%s]" % ",".join(m["$rec"][0] for m in o["members"]))
     return "%s.%s" % (o.get("actor") or o.get("src"), o["op"])
@@ -609,7 +639,14 @@ def shrink_candidates(plan):
             c = copy.deepcopy(plan)
             c["actors"][aid] = "bin-raw"
             yield c
-    used = set(o.get("actor") or o.get("src") for o in plan["ops"] if o["op"] in ("write", "read"))
+    for i, o in enumerate(plan["ops"]):
+        if o.get("tee"):
+            c = copy.deepcopy(plan)
+            del c["ops"][i]["tee"]
+            yield c
+    used = set(o.get("actor") or o.get("src") for o in plan["ops"] if o["op"] in ("write", "read", "write_bad"))
+    for o in plan["ops"]:
+        used |= set(o.get("tee", []))
     for aid in sorted(plan["actors"]):
         if aid not in used and len(plan["actors"]) > 1:
             c = copy.deepcopy(plan)
